@@ -467,7 +467,12 @@ pub fn plan(property: &str, tier: Tier, seed: u64) -> Option<Plan> {
         "C04" => (
             {
                 let mut u = hist_units("C04", "hist", tier.pick(5000, 25000), 640, seed, stringy, true);
-                u.push(crate::engines::scan::c04_unit("/repo/src"));
+                // the crate's sources (a scratch copy when FCVERIF_REPO_SRC is set by the mutant tooling)
+                let root: &'static str = match std::env::var("FCVERIF_REPO_SRC") {
+                    Ok(p) => Box::leak(p.into_boxed_str()),
+                    Err(_) => "/repo/src",
+                };
+                u.push(crate::engines::scan::c04_unit(root));
                 u
             },
             format!("{GEN_RULE}at least two stored strings with multi-byte scalars were re-validated (from_utf8 on the bytes of every &str reachable from any read item) after every step. Static half (exhaustive over the program text, not generated): every `impl Push<X> for StringRegion` header in /repo/src must have X among String, &String, &str, &&str; every `unsafe` token is listed in the evidence."),
